@@ -49,7 +49,7 @@ def gen_success_scenario(rng, n_ops=None, small=False):
     pool = gen_pool(rng)
     k = n_ops or rng.choice([1, 1, 2, 3])
     ops = [gen_map_op(rng, pool['n_jobs'], small=small) for _ in range(k)]
-    return {'seed': rng.randint(0, 10 ** 6), 'pool': pool, 'ops': ops}
+    return {'seed': rng.randint(0, 10 ** 6), 'pool': pool, 'ops': ops, 'all_valid': True}
 
 
 def gen_fail_scenario(rng, kinds=('ValueError', 'Custom', 'Attr', 'KeyError', 'SystemExit', 'Wrap', 'Prefix')):
